@@ -94,7 +94,7 @@ PROPS["C16"] = {
                    "MysyncModel/NodeState.lean (countHANodes, countRunningHASlaves, countAliveHASlavesWithinNodes, getDubiousHAHosts)",
                    "MysyncModel/GtidParse.lean (text form of GTID sets)"],
     "trusted": ["T4 fake MySQL semantics for STOP/START REPLICA, CHANGE REPLICATION SOURCE, SHOW REPLICA STATUS", "T6 GTID text parser modelled"],
-    "rule": "findBestStreamFrom: ALL 343 stream_from maps over three cascade hosts with values in {absent, master, HA replica, c1, c2, c3, unregistered} x self x 12 (thorough 60) random health patterns (6 kinds per ancestor), plus malformed maps/cluster states; repairCascadeNode: random scenarios over replication state (running/stopped/temp error/permanent error/unknown) x current upstream x configured source incl. self and empty x ancestor health x GTID relation (behind/equal/ahead/diverged) x failing stop/change/uuid/status calls x timer. distinct = distinct record; non-trivial = configured source is set and is not the master (bsf) / some action taken (repair)",
+    "rule": "findBestStreamFrom: ALL 343 stream_from maps over three cascade hosts with values in {absent, master, HA replica, c1, c2, c3, unregistered} x self x 12 (thorough 60) random health patterns (6 kinds per ancestor), plus malformed maps/cluster states; repairCascadeNode: random scenarios over replication state (running/stopped/temp error/permanent error/unknown) x current upstream x configured source incl. self and empty x ancestor health x GTID relation (behind/equal/ahead/diverged) x failing stop/change/uuid/status calls x timer. distinct = distinct record; non-trivial = configured source is set and is not the master (bsf) / some action taken (repair); plus 3000 observations of one server by the REAL getNodeState with one failing probe (error / dubious error / time-out, optionally the second ping failing too) x cascade or HA registration",
     "assumptions": ["a stream_from that names an unregistered host is a nil dereference in the code (reported under C20); theorems state the exact condition"],
     "min_lines": 10000,
     "level_text": "Theorems over the model for all finite topology maps incl. cycles and self-references: termination (fuel never runs out, pigeonhole over the map's values), never self, configured source when healthy or already streamed, nearest healthy ancestor else master, no panic when every source is registered; guarded move (fresh GTID read precedes, contained in candidate's snapshot, never when ahead/split-brained, never to itself); HA counters ignore cascade hosts. Correspondence: REAL findBestStreamFrom on all maps and REAL repairCascadeNode against fake servers.",
@@ -113,7 +113,7 @@ PROPS["C05"] = {
     "level": "proof",
     "components": _MGR_COMPONENTS,
     "trusted": _MGR_TRUSTED,
-    "rule": "random multi-tick histories (1-3 real stateManager iterations separated by 0/5/29/30/31 s of virtual time) over: 2-4 nodes, semi-sync on/off, w 1-2, failover on/off, delay 0/30 s, resetup on/off, master health record {ok, missing, ping failed, read-only fs, crash recovered} per tick, master reachable or not per tick, replicas {running, stopped, dead}, active list {full, master only, partial, absent}, maintenance {none, light acked/unacked, unreadable +- marker file}, pending request {none, failover-type, auto, unreadable}, last switch {none, auto 10 min / 2 h / exactly cooldown ago, manual, in progress, unreadable}, lock held/lost/disconnected, lost reply of the create, unregistered recorded master. distinct = distinct tick record; non-trivial = the iteration took at least one observable step",
+    "rule": "random multi-tick histories (1-3 real stateManager iterations separated by 0/5/29/30/31 s of virtual time) over: 2-4 nodes, semi-sync on/off, w 1-2, failover on/off, delay 0/30 s, resetup on/off, master health record {ok, missing, ping failed, read-only fs, crash recovered} per tick, master reachable or not per tick, replicas {running, stopped, dead}, active list {full, master only, partial, absent}, maintenance {none, light acked/unacked, unreadable +- marker file}, pending request {none, failover-type, auto, unreadable}, last switch {none, auto 10 min / 2 h / exactly cooldown ago, manual, in progress, unreadable}, lock held/lost/disconnected, lost reply of the create, unregistered recorded master. distinct = distinct tick record; non-trivial = the iteration took at least one observable step; master health per tick incl. 'crash-recovered earlier and failing now'; the harness records since when the published record has been bad at every tick (ground truth for the delay gate)",
     "assumptions": ["E8: cooldown/delay time stamps come from one clock"],
     "min_lines": 2000,
     "level_text": "Theorems over the model of one manager iteration for ALL inputs: a failover request is filed only if every gate of the property is open (GatesOpen is written from the property text), it is the last step, the failure clock keeps the first bad evaluation of an unbroken bad run (history theorem by list induction), a suspicious master is inert. Correspondence: the REAL stateManager over multi-tick histories with virtual time hitting the delay/cooldown boundaries exactly; the gates are also evaluated as a monitor on every real filing.",
@@ -126,7 +126,7 @@ PROPS["C06"] = {
     "level": "proof",
     "components": _MGR_COMPONENTS + ["MysyncModel/App/SwitchLifecycle.lean (switch / last_switch / last_rejected_switch as a state machine: file, abort, manager tick)"],
     "trusted": _MGR_TRUSTED,
-    "rule": "random multi-tick histories of the real stateManager with a pending request {manual switchover to a host, operator-forced failover, automatic failover} x age {now, 30 min, 31 min, zero initiated_at} x run_count 0-2 x max attempts {0,1,2,60} x real performSwitchover outcome {success, target refuses read-only, operator abort in the middle} x failing 'set switch' x light maintenance; every write/delete of the three keys is observed. distinct = distinct tick; non-trivial = an observable step",
+    "rule": "random multi-tick histories of the real stateManager with a pending request {manual switchover to a host, operator-forced failover, automatic failover} x age {now, 30 min, 31 min, zero initiated_at} x run_count 0-2 x max attempts {0,1,2,60} x real performSwitchover outcome {success, target refuses read-only, operator abort in the middle} x failing 'set switch' x light maintenance; every write/delete of the three keys is observed. distinct = distinct tick; non-trivial = an observable step; requests incl. worker requests without master_transition; attempts that fail after an operator abort; rejection inside the procedure; active list naming a removed host",
     "assumptions": ["coordination calls of the manager succeed (their failure is C07's subject), except the injected failing StartSwitchover write"],
     "min_lines": 1500,
     "level_text": "Theorems over the request state machine for all inputs: no overwrite (create-if-absent), time-out bound, attempt bound, approved once, each failure counted once, exactly one terminal outcome per iteration, only the lock holder touches a request, success needs a successful procedure, planned switchovers leave 'switch' within max-run_count+1 iterations. The time-out clause was FALSE on the pinned tree (FailSwitchover re-queued the request for ever) and was repaired by a fix: commit (known_findings.json). Monitors on the real code: pending past time-out / attempt limit, re-judged retry, miscounted failure, filing over a pending request, 'succeeded' without the recorded master being the promoted writable node.",
@@ -188,7 +188,7 @@ PROPS["C01"] = {
     "trusted": ["T4 fake MySQL semantics (read_only, replication threads, CHANGE REPLICATION SOURCE, RESET REPLICA ALL, GTID progress when IO/SQL threads run)",
                 "E1 exclusive control; E2 restart state", "the observer c01observe (event log -> phase steps); only SUCCESSFUL steps and lock re-checks are compared, oracle inputs are recovered from the recorded results, tie-breaks between equal positions are resolved by trying all arrival orders",
                 "T9 force_switchover off, external replication off; the speed-up phase is abstract here (C19)"],
-    "rule": "random real performSwitchover runs: 2-5 nodes, semi-sync (w 1-2) / plain / async mode, GTID histories with two source uuids, gaps, executed behind by 0-20 with retrieved-but-unapplied tails, diverged replicas, lags around the priority bound, priorities 0-2; request kinds {to a host, from the master, automatic failover, operator-forced failover, worker without transition}; master dead or hanging from the start, replicas dead, published list with or without the last host; one of: a failing/hanging/lost-reply statement (13 kinds, 1st or 2nd occurrence, any host), a node killed when a given statement kind first arrives, a scripted lock loss at the 1st/2nd re-check, a failing/lost coordination write. Ground-truth snapshots of all servers are taken at the first lock re-check and whenever SET GLOBAL read_only=0 arrives. distinct = distinct run; non-trivial = more than two observable steps",
+    "rule": "random real performSwitchover runs: 2-5 nodes, semi-sync (w 1-2) / plain / async mode, GTID histories with two source uuids, gaps, executed behind by 0-20 with retrieved-but-unapplied tails, diverged replicas, lags around the priority bound, priorities 0-2; request kinds {to a host, from the master, automatic failover, operator-forced failover, worker without transition}; master dead or hanging from the start, replicas dead, published list with or without the last host; one of: a failing/hanging/lost-reply statement (13 kinds, 1st or 2nd occurrence, any host), a node killed when a given statement kind first arrives, a scripted lock loss at the 1st/2nd re-check, a failing/lost coordination write. Ground-truth snapshots of all servers are taken at the first lock re-check and whenever SET GLOBAL read_only=0 arrives. distinct = distinct run; non-trivial = more than two observable steps; request kinds incl. automatic failover taken up again after the master key moved (`from` is no longer the recorded master); 60 % semi-sync / 20 % async mode with the allowed-lag exception (candidates with a broken SQL thread, varied repl_mon delay) / 20 % neither",
     "assumptions": ["E3 is proved in the environment model; that the fake servers implement it (a read-only server with stopped IO thread does not grow executed+retrieved) is part of T4"],
     "min_lines": 1000,
     "level_text": "Theorems for all oracle inputs (= all combinations of failing calls, all cluster shapes, all request kinds) and all crash prefixes: before any promotion the quorum re-count of FROZEN hosts against the published list passed, both lock re-checks passed in the right places, exactly the frozen hosts' positions were collected and have a maximum, the new master caught up (or the async escape, which needs async mode + automatic cause + positive allowed lag); semantic core promotion_safe: every frozen host's executed+retrieved set is contained in the promoted node's executed set (via the C13 maximal-element theorem and transitivity), with E3 proved as an environment lemma; split brain aborts with the marker and nothing promoted; marker only on split brain. Monitors on real runs evaluate PromotionOK on ground-truth snapshots at the moment read_only=0 arrives.",
